@@ -34,6 +34,7 @@ type XEvent struct {
 	IGD    *int64 `json:"igd"`
 	PT     int64  `json:"pt,omitempty"`
 	Now    int64  `json:"now,omitempty"`
+	Now2   int64  `json:"now2,omitempty"` // clock reading of the pass\'s index decisions (0 = same as now)
 	Fail   int    `json:"fail,omitempty"`
 }
 
@@ -102,6 +103,7 @@ type xworld struct {
 	book       map[uint64]xbook // every shard ever materialised
 	store      bool             // indexes are created / reopened through the store's own code (real index on disk); else installed by hook
 	lastNow    int64            // clock reading of the last pass
+	now1, now2 int64            // clock readings of the running pass
 	ixspec     map[uint32]map[uint64]engine.VerifIndexSpec
 	client     *metaclient.Client // what the store uses to look its database up when it creates / reopens an index
 	want       map[int64]int64
@@ -168,9 +170,11 @@ func (e xeng) UpdateIndexDurationInfo(info *meta.IndexDurationInfo, nilIndexMap 
 	return e.n().eng.UpdateIndexDurationInfo(info, nilIndexMap)
 }
 func (e xeng) ExpiredShards(nilShardMap *map[uint64]*meta.ShardDurationInfo) []*meta.ShardIdentifier {
+	fakeNow = time.Unix(0, e.w.now1).UTC() // the clock while the pass takes its shard decisions
 	return e.n().eng.ExpiredShards(nilShardMap)
 }
 func (e xeng) ExpiredIndexes(nilIndexMap *map[uint64]*meta.IndexDurationInfo) []*meta.IndexIdentifier {
+	fakeNow = time.Unix(0, e.w.now2).UTC() // ... and later, while it takes its index decisions
 	return e.n().eng.ExpiredIndexes(nilIndexMap)
 }
 func (e xeng) ExpiredCacheIndexes() []*meta.IndexIdentifier { return nil }
@@ -487,8 +491,11 @@ func (w *xworld) tick(ev *XEvent, evIdx int, tr *XTrace) {
 	w.failSh = ev.Kind == "tickfail" && ev.Fail == 1
 	w.failIx = ev.Kind == "tickfail" && ev.Fail == 2
 	defer func() { w.failSh, w.failIx = false, false }()
+	if ev.Now2 == 0 {
+		ev.Now2 = ev.Now
+	}
 	fakeNow = time.Unix(0, ev.Now).UTC()
-	w.lastNow = ev.Now
+	w.now1, w.now2, w.lastNow = ev.Now, ev.Now2, ev.Now2
 	before := w.snap()
 	type pre struct {
 		b      xbook
@@ -542,12 +549,12 @@ func (w *xworld) tick(ev *XEvent, evIdx int, tr *XTrace) {
 			if p.b.ix != x {
 				continue
 			}
-			if !(p.d != 0 && p.b.end+p.d < ev.Now) {
+			if !(p.d != 0 && p.b.end+p.d < ev.Now2) {
 				fail("index-before-shard",
 					fmt.Sprintf("index %d (group %d, end %d) deleted at now=%d while shard %d (end %d, d=%d) that uses it has not expired",
-						x, igid, before.igEnd[igid], ev.Now, id, p.b.end, p.d),
+						x, igid, before.igEnd[igid], ev.Now2, id, p.b.end, p.d),
 					map[string]int64{"index": int64(x), "ig": int64(igid), "ig_end": before.igEnd[igid], "shard": int64(id),
-						"sg_end": p.b.end, "d": p.d, "now": ev.Now}, nil, nil)
+						"sg_end": p.b.end, "d": p.d, "now": ev.Now2}, nil, nil)
 			}
 		}
 	}
@@ -782,6 +789,9 @@ func genXTrace(r *gen.Rand, dir string, store bool) XTrace {
 			}
 			off := []int64{-hour, -1, 0, 1, 2, hour / 2, hour, 1000 * hour}[r.Intn(8)]
 			ev = XEvent{Kind: "tick", PT: int64(r.Intn(len(w.nodes))), Now: t.end + t.d + off}
+			if r.Chance(2, 5) { // the index decisions are taken a little later than the shard decisions
+				ev.Now2 = ev.Now + gen.Pick(r, []int64{1, 1, 2, 1000, int64(time.Second), hour / 2})
+			}
 			if r.Chance(1, 8) {
 				ev.Kind, ev.Fail = "tickfail", r.Range(1, 2)
 			}
